@@ -703,6 +703,29 @@ pub fn gen_settings(cs: &mut ChoiceStream, verbose: bool) -> DefaultSettings<f64
     if cs.prob("s.qdldl", 1, 3) {
         s.direct_solve_method = "qdldl".to_string();
     }
+    // the reduced ("almost") tolerances, independently of each other
+    match cs.choose("s.rtol", 6) {
+        1 => {
+            s.reduced_tol_gap_abs = 1e-3;
+            s.reduced_tol_gap_rel = 1e-7;
+        }
+        2 => {
+            s.reduced_tol_gap_abs = 1e-7;
+            s.reduced_tol_gap_rel = 1e-3;
+        }
+        3 => s.reduced_tol_feas = 1e-2,
+        4 => s.reduced_tol_feas = 1e-6,
+        _ => {}
+    }
+    match cs.choose("s.misc", 8) {
+        1 => s.tol_gap_abs = 1e-3,
+        2 => s.tol_gap_rel = 1e-3,
+        3 => s.tol_infeas_rel = 1e-5,
+        4 => s.min_terminate_step_length = 1e-2,
+        5 => s.linesearch_backtrack_step = 0.5,
+        6 => s.static_regularization_constant = 1e-6,
+        _ => {}
+    }
     match cs.choose("s.eqit", 4) {
         1 => s.equilibrate_max_iter = 1,
         2 => s.equilibrate_max_iter = 3,
